@@ -160,3 +160,21 @@ prop("C18",
      level_note="Trusted: the offset model in c18_test.go. Zero-length reads and DataRange/validity after Close are left unspecified (the statement does not fix them). CloseWithError's custom error is not demanded (the statement asks for 'an error').",
      assumptions=["ReadAt at exactly the write position blocks and is issued only in the waiter scenarios",
                   "a waiting reader may legitimately get invalid-offset when a single write larger than the capacity overwrites its offset; waiter writes are <= capacity"])
+
+prop("C13",
+     title="Key filtering rewrites multi-key commands without corrupting them",
+     quick=[{"re": "^TestC13(Enumerate)?$", "checks": 20000}],
+     thorough=[{"re": "^TestC13(Enumerate)?$", "checks": 3000000, "shards": 8, "timeout": 1700}],
+     rule="(enumeration) every command of the tool's table x every valid key count 1..5 x every pass/fail pattern of its keys x {blacklist, "
+          "whitelist}, with values for MSET pairs, trailing options, BITOP's operation, B[LR]POP's timeout; (random) rapid-drawn command, key "
+          "count, key contents (prefixes of / equal to / extending the listed prefixes, checkpoint-prefixed keys, arbitrary bytes, option values "
+          "that look like keys), 0-3 prefixes as whitelist or blacklist or no filter, commands outside the table. Oracle: reference rewrite written "
+          "from the statement over a key-position table transcribed from the Redis 5.0 command table (not from the repository): leading non-key "
+          "args + each passing key with its companions in order + trailing args; dropped iff no key passes; unchanged when all pass / no filter / "
+          "unknown command; a command of the tool's table missing from the reference is reported. Non-trivial: >=2 keys with a mixed outcome "
+          "(enumeration) or >=2 keys with a filter (random). Distinct = hash of (command, args, filter).",
+     technique="exhaustive enumeration over (command, arity, pass-pattern) + property-based testing (rapid) against a reference rewrite over an independently transcribed key-position table (differential oracle)",
+     level_text="The finite (command x key count <= 5 x pass pattern x list kind) space is enumerated completely on every run; argument contents are generated. The oracle does not read the repository's table, so a wrong table entry is a disagreement.",
+     level_note="Trusted: ref.KeySpecs (Redis 5.0 server.c first/last/step) and ref.KeySpec.Rewrite. Two-key fixed-arity commands (rename, smove, rpoplpush) are rewritten per the statement even though the result may be an invalid Redis command: that is what the statement prescribes.",
+     assumptions=["commands arrive lower-cased as redis.ParseArgs delivers them",
+                  "argument lists have a valid arity for the command (as a master emits them)"])
